@@ -63,6 +63,9 @@ func runC02(c *engine.Ctx, tier string) {
 		serializableWait(c, ph.id, ph.field, ph.lt)
 	}
 
+	// a phase of the transaction is finished (and the next one opened) only when every proposal finished it:
+	// otherwise a later phase of one target overtakes an earlier phase of another target of the same request
+	allProposalsGates(c, "C02.10", "bce")
 	// ---- proposal controller
 	c.Al = proposalAliases(c.P)
 	link := "@CFG.Status.Proposed.Index < @OWN"
